@@ -730,6 +730,91 @@ def _adjacency_builder(ctx, ci) -> Optional[FuncInfo]:
     return cam
 
 
+def _normalise_guards(node: ast.AST) -> ast.AST:
+    """Range tests written as a guard that leaves the iteration are brought to the form the bounds rules read:
+         if n < 0 or n >= E or ...: continue        REST      ->      if 0 <= n < E and ...: REST
+    (a guard whose body always leaves and that has no else: the rest of the block runs under the negated test; the negated
+    disjunction is the conjunction of the negated comparisons; 0 <= n and n < E on one variable are chained)."""
+    import copy
+    NEG = {ast.Lt: ast.GtE, ast.LtE: ast.Gt, ast.Gt: ast.LtE, ast.GtE: ast.Lt}
+
+    def negate(test):
+        if isinstance(test, ast.UnaryOp) and isinstance(test.op, ast.Not):
+            return test.operand
+        if isinstance(test, ast.BoolOp) and isinstance(test.op, ast.Or) and all(
+                isinstance(v, ast.Compare) and len(v.ops) == 1 and type(v.ops[0]) in NEG for v in test.values):
+            return ast.BoolOp(op=ast.And(), values=[ast.Compare(left=v.left, ops=[NEG[type(v.ops[0])]()],
+                                                                comparators=v.comparators) for v in test.values])
+        if isinstance(test, ast.Compare) and len(test.ops) == 1 and type(test.ops[0]) in NEG:
+            return ast.Compare(left=test.left, ops=[NEG[type(test.ops[0])]()], comparators=test.comparators)
+        return None
+
+    def chain(test):
+        """0 <= v (v >= 0) and v < E (E > v) in one conjunction -> 0 <= v < E"""
+        if not (isinstance(test, ast.BoolOp) and isinstance(test.op, ast.And)):
+            return test
+        lo, hi, rest = {}, {}, []
+        for v in test.values:
+            if isinstance(v, ast.Compare) and len(v.ops) == 1:
+                l_, o_, r_ = v.left, v.ops[0], v.comparators[0]
+                is0 = lambda n: isinstance(n, ast.Constant) and n.value == 0 and not isinstance(n.value, bool)
+                if is0(l_) and isinstance(o_, ast.LtE) and isinstance(r_, ast.Name):
+                    lo[r_.id] = v
+                    continue
+                if is0(r_) and isinstance(o_, ast.GtE) and isinstance(l_, ast.Name):
+                    lo[l_.id] = v
+                    continue
+                if isinstance(o_, ast.Lt) and isinstance(l_, ast.Name) and not is0(r_):
+                    hi[l_.id] = (v, r_)
+                    continue
+                if isinstance(o_, ast.Gt) and isinstance(r_, ast.Name) and not is0(l_):
+                    hi[r_.id] = (v, l_)
+                    continue
+            rest.append(v)
+        out = []
+        for nm in list(lo):
+            if nm in hi:
+                out.append(ast.copy_location(ast.Compare(left=ast.Constant(value=0), ops=[ast.LtE(), ast.Lt()],
+                                                         comparators=[ast.Name(id=nm, ctx=ast.Load()), hi[nm][1]]), lo[nm]))
+                del hi[nm]
+            else:
+                out.append(lo[nm])
+        out += [v for v, _ in hi.values()] + rest
+        if len(out) == 1:
+            return out[0]
+        return ast.copy_location(ast.BoolOp(op=ast.And(), values=out), test)
+
+    def leaves(body) -> bool:
+        return bool(body) and isinstance(body[-1], (ast.Continue, ast.Return, ast.Raise, ast.Break))
+
+    def fix_block(stmts):
+        out = []
+        for i, st in enumerate(stmts):
+            for fld in ("body", "orelse", "finalbody"):
+                sub = getattr(st, fld, None)
+                if isinstance(sub, list) and sub and isinstance(sub[0], ast.stmt):
+                    setattr(st, fld, fix_block(sub))
+            if isinstance(st, ast.If) and not st.orelse and leaves(st.body) and len(st.body) == 1 and \
+                    isinstance(st.body[0], ast.Continue) and i + 1 < len(stmts):
+                neg = negate(st.test)
+                if neg is not None:
+                    rest = fix_block(stmts[i + 1:])
+                    new_if = ast.If(test=chain(neg), body=rest, orelse=[])
+                    ast.copy_location(new_if, st)
+                    ast.fix_missing_locations(new_if)
+                    out.append(new_if)
+                    return out
+            if isinstance(st, ast.If):
+                st.test = chain(st.test)
+                ast.fix_missing_locations(st)
+            out.append(st)
+        return out
+    node = copy.deepcopy(node)
+    node.body = fix_block(node.body)
+    ast.fix_missing_locations(node)
+    return node
+
+
 def _inline_properties(ctx, ci, node: ast.AST) -> ast.AST:
     """`self.<p>` where <p> is a read-only property of the class (found through its MRO, so a mixin's abstract property
     resolves to the concrete class's override) whose body is one return: replaced by the returned expression."""
@@ -766,6 +851,7 @@ def _adjacency(ctx, ci, cam: FuncInfo, strides, comps, total):
     from ..model import norm
     cnode = norm(cam.node)          # single-use temporaries substituted into their use
     cnode = _inline_properties(ctx, ci, cnode)
+    cnode = _normalise_guards(cnode)
     for st in ast.walk(cnode):
         if isinstance(st, ast.Assign) and len(st.targets) == 1:
             t, v = st.targets[0], st.value
